@@ -330,6 +330,14 @@ pub fn store(a: &[Sx]) -> String {
             argv.push(OsString::from_vec(w));
         }
     }
+    // optional 4th item: argument groups `((gid member..) ..)` (implementation-only stream store-groups)
+    if a.len() > 3 {
+        for g in a[3].list() {
+            let items = g.list();
+            let members: Vec<String> = items[1..].iter().map(|x| x.string()).collect();
+            cmd = cmd.group(clap::ArgGroup::new(items[0].string()).args(members).multiple(true));
+        }
+    }
     let mut m = match cmd.try_get_matches_from(argv) {
         Ok(m) => m,
         Err(e) => return format!("builderr {}", kind_str(e.kind())),
